@@ -152,6 +152,9 @@ func (se *SessionExecutor) handleStmtExecute(reqCtx *util.RequestContext, data [
 		return nil, mysql.NewDefaultError(mysql.ErrUnknownStmtHandler,
 			strconv.FormatUint(uint64(id), 10), "stmt_execute")
 	}
+	// whatever happens below, this execution is over afterwards: values bound from this
+	// packet and long data sent for it must not survive into the next execution
+	defer s.ResetParams()
 
 	flag := data[pos] & mysql.CursorTypeReadOnly
 	pos++
@@ -206,7 +209,6 @@ func (se *SessionExecutor) handleStmtExecute(reqCtx *util.RequestContext, data [
 	} else {
 		executeSQL = s.sql
 	}
-	defer s.ResetParams()
 	// execute sql using ComQuery
 	return se.handleQuery(reqCtx, executeSQL)
 }
